@@ -1618,9 +1618,26 @@ def normalise_else_after_exit(fn) -> int:
             if isinstance(st, ast.If) and st.orelse and always_exits(st.body):
                 rest = st.orelse
                 st.orelse = []
+                if getattr(st.body[-1], 'end_lineno', None) is not None:
+                    st.end_lineno = st.body[-1].end_lineno          # the statement now ends where its body ends
                 out.append(st)
                 out.extend(rest)
                 done += 1
+            elif isinstance(st, ast.If) and st.orelse and always_exits(st.orelse) and not always_exits(st.body) \
+                    and not (len(st.orelse) == 1 and isinstance(st.orelse[0], ast.If)):
+                # `if c: REST else: <exit>`  ->  `if not c: <exit>` followed by REST
+                rest = st.body
+                st.test = ast.copy_location(ast.UnaryOp(op=ast.Not(), operand=st.test), st.test)
+                st.body, st.orelse = st.orelse, []
+                out.append(st)
+                out.extend(rest)
+                done += 1
+                # source order: the exit block used to FOLLOW the rest; give it the position of the `if` itself
+                for x_ in ast.walk(ast.Module(body=st.body, type_ignores=[])):
+                    if hasattr(x_, 'lineno'):
+                        x_.lineno = st.lineno
+                        x_.end_lineno = st.lineno
+                st.end_lineno = st.lineno
             else:
                 out.append(st)
         return out
@@ -2488,6 +2505,7 @@ def flatten_model(model) -> Optional[Flattener]:
     for f in funcs:
         r_ = _shapes.get('%s::%s' % (f.path, f.qualname))
         fl.return_temps += normalise_return_temps(f, set(r_[1]) if r_ else None)
+    fl.else_after_exit = run(normalise_else_after_exit)
     fl.yoda = run(normalise_yoda)
     fl.negations = run(normalise_negations)
     fl.casts = run(normalise_casts)
